@@ -6,6 +6,7 @@
   theorems are about.  What is hand-written is only the search strategy for the hidden (τ) steps:
     * `sendReq`   anywhere between the `request` event and its `request_sent`/`request_coalesced` event (branching);
     * `recv`, `bcastLock`, `recvWake`, `ctxDone`, `cancel`   as late as possible (right before the event that needs them);
+    * `wake c`/`wakeCoalesced c` (the send itself) at its trace point, or earlier when the client's `woken` shows it;
     * `done`      right after `exit`;
     * `readRes`   lazily at the `read` event, or earlier than a `setres` event (branching there);
     * `fileRead`  lazily at `compile_end`, or earlier than a `change` event (branching there).
@@ -34,6 +35,13 @@ def readBranches (s : State) : List State :=
   (List.range s.clients.length).foldl
     (fun acc i => acc ++ acc.filterMap (fun t => step t (.readRes i))) [s]
 
+/-- a broadcast is in progress and client `c` has already been handled by it (its `wake`/`wake_coalesced` trace point
+    can lag behind the send: the client's receive is not under wsclientsMu) -/
+def wakeDone (s : State) (c : Nat) : Bool :=
+  match s.comp with
+  | .waking _ todo => !todo.contains c
+  | _ => false
+
 /-- the event's candidate step sequences from state `s` -/
 def succs (s : State) (e : Ev) : List State :=
   let c := e.c
@@ -52,10 +60,13 @@ def succs (s : State) (e : Ev) : List State :=
     match e.v with
     | some v => (readBranches s).filterMap fun t => step t (.setRes v)
     | none => []
-  | "wake" => tryAll s [[.wake c], [.recvWake c, .wake c], [.bcastLock, .wake c], [.bcastLock, .recvWake c, .wake c]]
-  | "wake_coalesced" => tryAll s [[.wakeCoalesced c], [.bcastLock, .wakeCoalesced c]]
+  | "wake" =>
+    tryAll s [[.wake c], [.recvWake c, .wake c], [.bcastLock, .wake c], [.bcastLock, .recvWake c, .wake c]]
+      ++ (if wakeDone s c then [s] else [])
+  | "wake_coalesced" =>
+    tryAll s [[.wakeCoalesced c], [.bcastLock, .wakeCoalesced c]] ++ (if wakeDone s c then [s] else [])
   | "broadcast_done" => tryAll s [[.bcastDone], [.bcastLock, .bcastDone]]
-  | "admit" => tryAll s [[.admit]]
+  | "admitted" => tryAll s [[.admitC]]
   | "refuse" => tryAll s [[.refuse]]
   | "accept_fail" => tryAll s [[.acceptFail c]]
   | "register" => tryAll s [[.register c]]
@@ -64,7 +75,11 @@ def succs (s : State) (e : Ev) : List State :=
     match e.v with
     | some v => tryAll s [[.write c v e.ok], [.cancel, .write c v e.ok]]
     | none => []
-  | "woken" => tryAll s [[.woken c], [.recvWake c, .woken c]]
+  | "woken" =>
+    -- the broadcast's send to this client may have happened although its trace point has not been reached yet
+    tryAll s [[.woken c], [.recvWake c, .woken c],
+      [.wake c, .recvWake c, .woken c], [.bcastLock, .wake c, .recvWake c, .woken c],
+      [.wakeCoalesced c, .recvWake c, .woken c], [.bcastLock, .wakeCoalesced c, .recvWake c, .woken c]]
   | "unregister" => tryAll s [[.unregister c], [.ctxDone c, .unregister c], [.cancel, .ctxDone c, .unregister c]]
   | "exit" => tryAll s [[.exit c, .done c]]
   | "drop" => tryAll s [[.drop c]]
